@@ -142,6 +142,9 @@ pub struct Outcome {
 pub fn run_history(cfg: &Cfg, hist: &[SOp], fault: Option<(u64, u32)>) -> Outcome {
     let mut out = Outcome { viols: Vec::new(), calls_last: 0 };
     let st = Rc::new(RefCell::new(DevState::new(cfg.base.clone())));
+    // write / flush records of the whole session (since the mount), kept apart from the per-call log
+    let session: Rc<RefCell<Vec<harness::dev::Rec>>> = Rc::new(RefCell::new(Vec::new()));
+    st.borrow_mut().logging = true;
     let ctx = format!("{hist:?}");
     let r = sess::guarded(|| -> Result<u64, (String, String)> {
         let dev = StdIoWrapper::new(StdDev { inner: MemDev::new(st.clone()) });
@@ -154,7 +157,7 @@ pub fn run_history(cfg: &Cfg, hist: &[SOp], fault: Option<(u64, u32)>) -> Outcom
             let last = i + 1 == hist.len();
             if last {
                 let mut s = st.borrow_mut();
-                s.log.clear();
+                session.borrow_mut().extend(s.log.drain(..));
                 s.logging = true;
                 s.arm(fault, Some(2_000_000));
             }
@@ -274,12 +277,15 @@ pub fn run_history(cfg: &Cfg, hist: &[SOp], fault: Option<(u64, u32)>) -> Outcom
                     if got != SRes::Unit {
                         return bad("result", &got, "Ok".into());
                     }
-                    // the flush has to arrive at the storage: a Flush record after the last write of this call
                     if last {
                         let s = st.borrow();
-                        let last_write = s.log.iter().rposition(|r| r.kind == Kind::Write);
-                        let last_flush = s.log.iter().rposition(|r| r.kind == Kind::Flush);
-                        if last_flush.is_none() || last_flush < last_write {
+                        // durability, not call counting: when the flush returns, no write of the session may be younger
+                        // than the last flush that reached the storage (a wrapper may skip a flush nothing depends on)
+                        let mut all = session.borrow().clone();
+                        all.extend(s.log.iter().cloned());
+                        let last_write = all.iter().rposition(|r| r.kind == Kind::Write);
+                        let last_flush = all.iter().rposition(|r| r.kind == Kind::Flush);
+                        if last_write.is_some() && (last_flush.is_none() || last_flush < last_write) {
                             return Err(("std-io/flush-not-forwarded-to-the-storage".into(), format!("{ctx}: device log of the flush call: {} writes, flush record {last_flush:?}", s.log.iter().filter(|r| r.kind == Kind::Write).count())));
                         }
                     }
